@@ -214,6 +214,16 @@ WIRE_SCRIPTS = [
     [(1, "set-safe q; 0 x;"), (1, "set-safe q; 1 7 y"), (1, "remove q;")],
 ]
 
+# statement terminators at the very END of a client's line are not part of the last field: however many there are, the node that takes the
+# command strips them all — once, at its own parse — and every later parse of the printed line (the envelope in the loop, the oplog, the
+# secondaries) finds nothing left to strip.  Nothing diverges here on the unchanged tree; a parse that strips only some of them leaves the
+# rest to be stripped at the NEXT hop, and the nodes end apart (seeded change C04-7)
+WIRE_CLEAN_SCRIPTS = [
+    [(1, "set css color:red;;"), (1, "get css"), (1, "set-safe css 1 a:b;;;"), (1, "remove css;;")],
+    [(1, "set u v;;;;"), (1, "increment n 2;;"), (1, "set-safe u 1 w;;")],
+    [(2, "set css x;;"), (2, "set other y;;;"), (1, "remove css;;")],
+]
+
 NEWER_SCRIPTS = [
     [(1, "set color red"), (1, "set color green"), (1, "set color blue"), (1, "set-safe color 0 yellow"), (1, "get-safe color")],
     [(1, "set-safe a 5 five"), (1, "set-safe a 1 one"), (1, "set-safe a 6 six"), (1, "set-safe a 0 zero"), (1, "increment a")],
@@ -244,6 +254,7 @@ def scenarios(tier):
         for vi, sc in enumerate(VERSION_SCRIPTS + NEWER_SCRIPTS): S.append((f"k{k}-newer-version-markers-{vi}", scenario_versions(k, sc, "newer-strategy", "newer")))
         for r in range(3 if tier == "quick" else 20): S.append((f"k{k}-newer-primary-only-{r}", scenario(k, 4 + r % 5, False, single_node=1, strategy="newer")))
         for vi, sc in enumerate(WIRE_SCRIPTS): S.append((f"k{k}-wire-format-{vi}", scenario_versions(k, sc, "wire-format")))
+        for vi, sc in enumerate(WIRE_CLEAN_SCRIPTS): S.append((f"k{k}-terminators-at-line-end-{vi}", scenario_versions(k, sc, "terminators-at-line-end")))
         for vi, sc in enumerate(SNAPSHOT_SCRIPTS): S.append((f"k{k}-snapshot-names-{vi}", scenario_snapshot_names(k, sc)))
         for vi, sc in enumerate(CROSS_DB_SCRIPTS): S.append((f"k{k}-cross-database-{vi}", scenario_snapshot_names(k, sc, "cross-database")))
     # two concurrent clients on the primary (the quantifier's second case), lock-level schedules
